@@ -50,7 +50,7 @@ def persisted_partition(cx):
             for l in lits:
                 if l[0] == "is" and is_f(l[1], FLAG):
                     flag = l[2]
-            is_light = v[0] == "call" and "LightReady::" in v[1] and "messages" in v[1] and contains(fld("Ready.light"), v)
+            is_light = contains(fld("Ready.light"), v) and ((v[0] == "call" and "LightReady::" in v[1] and "messages" in v[1]) or contains(fld("LightReady.messages"), v))
             if flag is None:
                 ok = False
             elif flag == when:
